@@ -415,6 +415,21 @@ def repo_identity():
         return dict(repo=REPO, error=str(ex))
 
 
+def coqchk_all(chk):
+    """independent re-check (coqchk) of every compiled statement file and everything it depends on; the
+    context summary must list no axiom, no type-in-type, no unsafe fixpoint, no assumed positivity"""
+    mods = sorted("NextestModel.Properties." + f[:-3] for f in os.listdir(os.path.join(COQ, "Properties")) if f.endswith(".vo"))
+    rc, o, e = sh(["coqchk", "-silent", "-o", "-Q", ".", "NextestModel"] + mods, cwd=COQ, timeout=1800)
+    txt = o + e
+    want = ["* Axioms: <none>", "type-in-type: <none>", "unsafe (co)fixpoints: <none>", "positivity is assumed: <none>"]
+    missing = [w for w in want if w not in txt]
+    chk.count("coqchk_modules", len(mods))
+    if rc != 0 or missing:
+        chk.violation("broken-obligation", "coqchk", dict(rc=rc, missing=missing, tail=txt[-2500:]), no_input=True)
+        return False
+    return True
+
+
 def gate_or_violation(chk, gate):
     """a broken proof obligation / hygiene failure is reported (with no failing input yet; callers
     that can search for one do so before calling this)"""
